@@ -1,4 +1,4 @@
-import ExprModel.Proofs.SpecLoops
+import ExprModel.Proofs.SpecOps
 /-
 C18 — Collection builtins satisfy their defining identities.
 
@@ -50,5 +50,30 @@ theorem none_eq_not_any (c : SCfg) (ctx : Ctx) (m m' mu : Meta) (op : String) (h
   rw [eval_none, eval_not _ _ _ _ hop, eval_any]
   simp only [bind_assoc]
   congr 1
+
+/-- `one(xs, {p}) = (count(xs, {p}) == 1)`: equal as computations (value / error class, call log,
+    allocation totals), for a literal `1` that denotes the `int` 1 (any annotation except a float or a
+    narrower integer kind) and a `count` node not annotated as a string — with the checker's annotation
+    (`int` on both) the comparison is the specialised `OpEqualInt`, without annotation the generic one. -/
+theorem one_eq_count_one (c : SCfg) (ctx : Ctx) (m m' me m1 : Meta) (xs b : Node)
+    (h1 : intConst m1.kd 1 = .int .int 1) (hk : m'.kd ≠ .string) :
+    eval c ctx (.builtin m "one" [xs, b]) =
+    eval c ctx (.binary me "==" (.builtin m' "count" [xs, b]) (.int m1 1)) := by
+  rw [eval_one, eval_eq, eval_count]
+  have hlit : eval c ctx (.int m1 1) = pure (.int .int 1) := by rw [eval, h1]
+  simp only [bind_assoc, hlit, pure_bind]
+  congr 1; funext coll
+  congr 1; funext n
+  congr 1; funext bs
+  split
+  · rfl
+  · split
+    · rename_i h2 h3
+      simp [Node.kd, Node.getMeta] at h3
+      exact absurd h3.2 hk
+    · rw [equalV_int_int]
+
+example : intConst ({ kd := .num .int } : Meta).kd 1 = .int .int 1 ∧ intConst ({} : Meta).kd 1 = .int .int 1 :=
+  ⟨by simp [intConst, wrap, Kind.bits, Kind.isSigned], by simp [intConst]⟩
 
 end ExprModel.C18
